@@ -17,6 +17,7 @@ def run_models(configs, jobs, signature_fn=None):
            "exhaustive": True, "max_followup_offset": 0}
     violations = []
     harness = []
+    real_samples = []
     for c in configs:
         opts = c.get("opts", {})
         if jobs > 1:
@@ -39,6 +40,8 @@ def run_models(configs, jobs, signature_fn=None):
             tot["exhaustive"] = False
         for h in res["samples"][:2]:
             tot["samples"].append({"model": c["cls"], "params": c["params"], "history": h})
+        real_samples.append((c, [h for h in res.get("all_histories", [])
+                                 if all(len(st) == 1 for st in h)][:120]))
         for v in res["violations"]:
             what = v["what"]
             sig = signature_fn(c, v) if signature_fn else what[0].split(";")[0][:120]
@@ -50,6 +53,23 @@ def run_models(configs, jobs, signature_fn=None):
         if res["violations"]:
             tot["exhaustive"] = False
     tot["traces_validated_against_impl"] = tot["transitions"]
+    # histories without in-cycle placements replayed on the real selector loop and uvloop
+    try:
+        from .conformance import conform_histories
+        tasks = []
+        for c, hs in real_samples:
+            for i in range(0, len(hs), 8):
+                tasks.append((c["mod"], c["cls"], c["params"], hs[i:i + 8], ("asyncio", "uvloop")))
+        n_real = 0
+        if tasks:
+            with mp.Pool(min(jobs, 16)) as pool:
+                for n, bad in pool.imap_unordered(conform_histories, tasks):
+                    n_real += n
+                    harness.extend(bad[:3])
+        tot["real_loop_replays"] = n_real
+    except Exception as e:  # noqa: BLE001
+        harness.append(f"real-loop conformance crashed: {type(e).__name__}: {e}")
+    tot["harness_errors"] = harness
     return tot, violations
 
 
